@@ -30,6 +30,9 @@ def dag_query(res, names, fuel=400):
     return ' '.join(str(x) for x in q)
 
 
+DEEP = []      # sizes of results whose DAG is deeper than 300 nodes (not evaluated by the enumerating deciders)
+
+
 def count_denoted(res, cap=5000):
     """Number of trees denoted (with multiplicity) - to skip oversize cases before asking the oracle."""
     nodes = res['nodes']
@@ -38,7 +41,8 @@ def count_denoted(res, cap=5000):
     def cnt(i, depth=0):
         if i in memo:
             return memo[i]
-        if depth > 2000:
+        if depth > 300:
+            DEEP.append(len(nodes))
             return cap + 1
         n = nodes[i]
         k = n['k']
@@ -157,9 +161,8 @@ class ParseStream:
             if want_trans:
                 qs.append('TRANS ' + ' '.join(map(str, [FUEL] + enc + [len(codes)] + codes + [t_err, start, len(toks)] + toks)))
             if want_full:
-                gf = full_info_grammar(g)
-                nf = {}
-                qs.append('TRANS ' + ' '.join(map(str, [FUEL] + gf.enc_rules(nf) + [len(codes)] + codes + [t_err, start, len(toks)] + toks)))
+                # the derivation trees: translations of the full-information variant, built by the extracted FullInfo.full
+                qs.append('TRANSF ' + ' '.join(map(str, [FUEL] + enc + [len(codes)] + codes + [t_err, start, len(toks)] + toks)))
             self.names.append(names)
         ans = yvlib.run_oracle(qs)
         per = 1 + (1 if want_trans else 0) + (1 if want_full else 0)
@@ -255,7 +258,7 @@ def run(pid, tier, seed, replay=None):
         return chk.finish()
     quick = tier == 'quick'
     if pid == 'C01':
-        ps = ParseStream(chk, exe, 120 if quick else 1200, 4 if quick else 6, 4, n_families=40 if quick else 400)
+        ps = ParseStream(chk, exe, 120 if quick else 500, 4 if quick else 5, 4, n_families=40 if quick else 150)
         ps.oracle_basics(want_trans=False)
         cfgs = [{'la': la, 'one': o, 'cost': c, 'rec': r} for la in ALL_LA for o in (0, 1) for c in (0, 1) for r in (0, 1)]
         res = ps.run_impl(lambda i: cfgs if ps.rec[i] is not None else [])
